@@ -437,8 +437,8 @@ pub fn run(tier: Tier) -> Report {
     match tier {
         Tier::Quick => {
             // o = [pipeline inv, globals, plus style, layout, explicit, modifier first]
-            enumerate(&rep, &all, 2, "all^2 (layouts 0,2,3,5; no pipeline-level parameters with layout 4; modifier-first only with layouts 0 and 4)", &|o: &[usize]| {
-                o[3] < 6 && o[3] != 1 && (o[3] != 4 || o[1] == 0) && (o[5] == 0 || o[3] == 0 || o[3] == 4) && plain_if_omit_global(o)
+            enumerate(&rep, &all, 2, "all^2 (layouts 0,2,3,5; no pipeline-level parameters with layout 4; modifier-first only with layouts 0 and 4; mixed + style only with layouts 0 and 3)", &|o: &[usize]| {
+                o[3] < 6 && o[3] != 1 && (o[3] != 4 || o[1] == 0) && (o[5] == 0 || o[3] == 0 || o[3] == 4) && (o[2] != 2 || o[3] == 0 || o[3] == 3) && plain_if_omit_global(o)
             });
             enumerate(&rep, &[1, 4], 3, "two^3 (no plus signs, layouts 0,3)", &|o: &[usize]| o[2] == 0 && (o[3] == 0 || o[3] == 3) && plain_if_omit_global(o));
         }
